@@ -503,7 +503,9 @@ hwloc_calc_append_object_range(struct hwloc_calc_location_context_s *lcontext,
     if (obj) {
       found++;
       if (dot) {
-	hwloc_calc_append_object_range(lcontext, obj->cpuset, obj->nodeset, &nextlevel, nextsep+1, cbfunc, cbdata);
+	/* only fails when the sublocation cannot be parsed, which would fail the same way below every other object */
+	if (hwloc_calc_append_object_range(lcontext, obj->cpuset, obj->nodeset, &nextlevel, nextsep+1, cbfunc, cbdata) < 0)
+	  return -1;
       } else {
 	/* add to the temporary cpuset
 	 * and let the caller add/clear/and/xor for the actual final cpuset depending on cmdline options
